@@ -1223,19 +1223,20 @@ def routes(tp, dom, d, pr):
 
 
 def small_prim(rng, var, size=None):
-    """constant primitive with dyadic data and exactly known (rational or pi-multiple) measure"""
+    """constant primitive with dyadic data and exactly known (rational or pi-multiple) measure; with a given (possibly tiny)
+    size the shape starts at the origin so that every corner is exactly representable in float32"""
     dim = geomgen.DIM[var]
     if dim == 1:
-        l = dy(rng, -2, 2)
+        l = dy(rng, -2, 2) if size is None else Fr(0)
         return Node("interval", var, [PF([c(l)]), PF([c(l + (size or dy(rng, 1, 3)))])])
     if dim == 3:
         return Node("sphere", var, [PF([c(dy(rng, -1, 1)) for _ in range(3)]), PF([c(size or dy(rng, 0.5, 2))])])
     kd = rng.choice(["par", "tri", "circle"])
     if kd == "circle":
         return Node("circle", var, [PF([c(dy(rng, -1, 1)), c(dy(rng, -1, 1))]), PF([c(size or dy(rng, 0.5, 2))])])
-    o = [dy(rng, -2, 2), dy(rng, -2, 2)]
+    o = [dy(rng, -2, 2), dy(rng, -2, 2)] if size is None else [Fr(0), Fr(0)]
     w, h = size or dy(rng, 1, 3), dy(rng, 1, 3)
-    c1, c2 = [o[0] + w, o[1]], [o[0] + dy(rng, -1, 1), o[1] + h]
+    c1, c2 = [o[0] + w, o[1]], [o[0] + (dy(rng, -1, 1) if size is None else 0), o[1] + h]
     if rng.random() < 0.5:
         c1, c2 = c2, c1
     return Node(kd, var, [PF([c(a) for a in o]), PF([c(a) for a in c1]), PF([c(a) for a in c2])])
